@@ -17,7 +17,7 @@ REPO = os.environ.get("RTAMT_REPO", "/repo")
 DIRS = ["rtamt/semantics/stl/discrete_time/online", "rtamt/semantics/arithmetic/discrete_time/online"]
 OUT = os.path.join(os.path.dirname(HERE), "lean", "Rtamt", "Py", "GeneratedOps.lean")
 
-CMP = {"EQ": "eq", "NEQ": "ne", "LEQ": "le", "LESS": "lt", "GEQ": "ge", "GREATER": "gt"}
+CMP = {"EQ": "eq", "EQUAL": "eq", "NEQ": "ne", "LEQ": "le", "LESS": "lt", "GEQ": "ge", "GREATER": "gt"}
 BINOPS = {ast.Add: "add", ast.Sub: "sub", ast.Mult: "mul", ast.Div: "div"}
 CMPOPS = {ast.Lt: "lt", ast.LtE: "le", ast.Gt: "gt", ast.GtE: "ge", ast.Eq: "eq", ast.NotEq: "ne"}
 MATH1 = {"sqrt": "sqrt", "exp": "exp"}
@@ -76,6 +76,8 @@ class Tr:
             t = src(e)
             if self.horizon and t in ("node.end", "node.begin"):
                 return "(.loc %s)" % q("$" + t[5:])
+            if t in ("node.out_vars", "node.in_vars"):
+                return "(.un .truthy (.loc %s))" % q("$" + t[5:])          # non-empty list: passed as a Boolean
             special = {"args[0]": "$length", "self.ast.var_object_dict[node.var]": "$var", "node.field": "$field",
                        "node.operator.value": "$operator", "node.operator": "$operator", "node.val": "$val"}
             if t in special:
@@ -145,6 +147,12 @@ class Tr:
 
     def list_expr(self, e):
         """Expression forms over lists of floats (offline visitor); None if `e` is not one of them."""
+        if isinstance(e, ast.IfExp):
+            return "(.ifExp %s %s %s)" % (self.expr(e.test), self.expr(e.body), self.expr(e.orelse))
+        if isinstance(e, ast.Constant) and isinstance(e.value, bool):
+            return "(.bin .eq (.int 0) (.int %d))" % (0 if e.value else 1)      # True / False
+        if isinstance(e, ast.Constant) and isinstance(e.value, float) and e.value == 0.0:
+            return "(.loc \"$zero\")"                                     # the float literal 0.0 (passed as a local)
         if isinstance(e, ast.Call) and isinstance(e.func, ast.Name) and not e.keywords:
             f, a = e.func.id, e.args
             if f == "len" and len(a) == 1:
@@ -195,6 +203,11 @@ class Tr:
                 return "(.insertLoc %s %s %s)" % (q(x), self.expr(a[0]), self.expr(a[1]))
         if isinstance(s, ast.AugAssign) and isinstance(s.op, ast.Add) and isinstance(s.target, ast.Name):
             return "(.setLoc %s (.bin .add (.loc %s) %s))" % (q(s.target.id), q(s.target.id), self.expr(s.value))
+        if isinstance(s, ast.For) and not s.orelse and isinstance(s.target, ast.Tuple) and len(s.target.elts) == 2 \
+                and all(isinstance(x, ast.Name) for x in s.target.elts) and isinstance(s.iter, ast.Call) \
+                and src(s.iter.func) == "enumerate" and len(s.iter.args) == 1:
+            return "(.forEnum %s %s %s %s)" % (q(s.target.elts[0].id), q(s.target.elts[1].id), self.expr(s.iter.args[0]),
+                                               self.block(s.body, depth))
         if isinstance(s, ast.For) and not s.orelse and isinstance(s.target, ast.Name):
             it = s.iter
             if isinstance(it, ast.Call) and isinstance(it.func, ast.Name) and it.func.id == "range" and not it.keywords:
@@ -415,6 +428,54 @@ def generate_horizon():
     return "\n".join(lines) + "\n"
 
 
+IAOFF_FILE = "rtamt/semantics/iastl/discrete_time/offline/ast_visitor.py"
+OUT_IAOFF = os.path.join(os.path.dirname(HERE), "lean", "Rtamt", "Py", "GeneratedIAOff.lean")
+
+
+def generate_iaoff():
+    """visitPredicate of the interface-aware offline visitors.  A first statement of the form
+    `a, b = Parent.visitPredicate(self, node, *args, **kwargs)` is replaced by the parent's body followed by the
+    assignment of the two returned expressions to `a` and `b`."""
+    tree = ast.parse(open(os.path.join(REPO, IAOFF_FILE)).read())
+    classes = {n.name: n for n in tree.body if isinstance(n, ast.ClassDef)}
+    lines = ["/- GENERATED by harness/py2lean.py from %s of /repo on every run - do not edit. -/" % IAOFF_FILE,
+             "import Rtamt.Py.Off", "", "namespace Rtamt.Py.Gen.IAOff", "open Rtamt Rtamt.Py", ""]
+    names = []
+    for cname, cls in classes.items():
+        ms = {m.name: m for m in cls.body if isinstance(m, ast.FunctionDef)}
+        m = ms.get("visitPredicate")
+        if m is None or (isinstance(m.body[-1], ast.Return) and isinstance(m.body[-1].value, ast.Tuple)):
+            continue          # the common base class returns (values, verdicts) and is only called by the four subclasses
+        body = list(m.body)
+        pre = []
+        if body and isinstance(body[0], ast.Assign) and len(body[0].targets) == 1 and isinstance(body[0].targets[0], ast.Tuple) \
+                and len(body[0].targets[0].elts) == 2 and isinstance(body[0].value, ast.Call) \
+                and isinstance(body[0].value.func, ast.Attribute) and body[0].value.func.attr == "visitPredicate" \
+                and isinstance(body[0].value.func.value, ast.Name) and body[0].value.func.value.id in classes:
+            par = {x.name: x for x in classes[body[0].value.func.value.id].body if isinstance(x, ast.FunctionDef)}.get("visitPredicate")
+            if par is not None and isinstance(par.body[-1], ast.Return) and isinstance(par.body[-1].value, ast.Tuple) \
+                    and len(par.body[-1].value.elts) == 2:
+                tg = body[0].targets[0].elts
+                rv = par.body[-1].value.elts
+                pre = list(par.body[:-1]) + [ast.Assign(targets=[ast.Name(id=tg[k].id, ctx=ast.Store())], value=rv[k]) for k in (0, 1)
+                                              if src(tg[k]) != src(rv[k])]
+                body = pre + body[1:]
+        fake = ast.FunctionDef(name="visitPredicate", args=m.args, body=body, decorator_list=[])
+        tr = Tr(cls)
+        tr.offline = True
+        t = offline_method(tr, fake)
+        if t is None:
+            continue
+        lines.append("/-- `%s.visitPredicate` -/" % cname)
+        lines.append("def %s : OffMethod :=\n  %s" % (cname, t))
+        lines.append("")
+        names.append(cname)
+    lines.append("def classes : List (String × OffMethod) := [%s]" % ", ".join("(%s, %s)" % (q(n), n) for n in names))
+    lines.append("")
+    lines.append("end Rtamt.Py.Gen.IAOff")
+    return "\n".join(lines) + "\n"
+
+
 ONCTOR_FILE = "rtamt/semantics/stl/discrete_time/online/ast_visitor.py"
 OUT_ONCTOR = os.path.join(os.path.dirname(HERE), "lean", "Rtamt", "Py", "GeneratedOnCtor.lean")
 
@@ -619,6 +680,7 @@ def main():
     write_if_changed(OUT_HOR, generate_horizon())
     write_if_changed(OUT_PAST, generate_past())
     write_if_changed(OUT_ONCTOR, generate_onctor())
+    write_if_changed(OUT_IAOFF, generate_iaoff())
     txt = generate()
     old = open(OUT).read() if os.path.exists(OUT) else None
     if txt != old:
